@@ -175,6 +175,32 @@ def main(run, args):
         expect_fail[f"c06-late-{i}"] = fails
         scripts.append({"name": f"c06-late-{i}", "suite": 1, "members": members, "ops": ops})
         marks.append(mk)
+    # directed: the member's signature key inside the group is no longer the key its client was configured
+    # with (it rotated the key in a commit of its own, or by an Update that somebody else committed): the
+    # loaded group is the saved group, signer included, and what it sends is accepted by the others
+    for i in range(4 if quick else 24):
+        storage = ["mem", "sqlite"][i % 2]
+        members = [{"name": n, "storage": storage, "retention": 3} for n in "ABC"]
+        ops = [{"op": "create", "who": "A"}, {"op": "kp", "who": "B", "id": "kB"}, {"op": "kp", "who": "C", "id": "kC"},
+               {"op": "commit", "who": "A", "id": "c0", "add": ["kB", "kC"]}, {"op": "apply", "who": "A"},
+               {"op": "join", "who": "B", "welcome_any": "c0"}, {"op": "join", "who": "C", "welcome_any": "c0"}]
+        if i % 4 < 2:
+            ops += [{"op": "commit", "who": "B", "id": "c1", "new_id": True}, {"op": "deliver", "to": "A", "msg": "c1"}, {"op": "deliver", "to": "C", "msg": "c1"}, {"op": "apply", "who": "B"}]
+        else:
+            ops += [{"op": "propose", "who": "B", "kind": "update_id", "id": "p1"}, {"op": "deliver", "to": "A", "msg": "p1"}, {"op": "deliver", "to": "C", "msg": "p1"},
+                    {"op": "commit", "who": "A", "id": "c1"}, {"op": "deliver", "to": "B", "msg": "c1"}, {"op": "deliver", "to": "C", "msg": "c1"}, {"op": "apply", "who": "A"}]
+        nt = i % 2 == 1 and i % 4 >= 2
+        ops.append({"op": "save", "who": "B", "no_tree": nt})
+        ops.append({"op": "observe", "who": "B", "observe": "B"})
+        a = len(ops) - 1
+        ops.append({"op": "load", "who": "B", "no_tree": nt})
+        ops.append({"op": "observe", "who": "B", "observe": "B"})
+        mk = [("reload_after_key_rotation" + ("_treeless" if nt else ""), "B", a, len(ops) - 1)]
+        ops += [{"op": "app", "who": "B", "id": "m1", "data": "01"}, {"op": "deliver", "to": "A", "msg": "m1"}, {"op": "deliver", "to": "C", "msg": "m1"},
+                {"op": "commit", "who": "B", "id": "c2"}, {"op": "deliver", "to": "A", "msg": "c2"}, {"op": "deliver", "to": "C", "msg": "c2"}, {"op": "apply", "who": "B"},
+                {"op": "observe", "who": "B", "observe": "all"}]
+        scripts.append({"name": f"c06-rot-{i}", "suite": 1, "members": members, "ops": ops})
+        marks.append(mk)
     recs = run_scripts(scripts, timeout=1500)
     failing = []
     n_checks = 0
